@@ -47,13 +47,14 @@ TT_PARAMS = dict(
     extended_tube=[dict(Gc=0.1867, Ge=0.2169, beta=0.2, delta=0.09693)],
     van_der_waals=[dict(mu=1.0, beta=0.1, a=0.5, limit=5.0), dict(mu=1.0, beta=0.0, a=0.5, limit=5.0)],
     blatz_ko=[dict(mu=1.0)],
-    storakers=[dict(mu=[4.5 * (1.85 / 2), -4.5 * (-9.2 / 2)], alpha=[1.85, -9.2], beta=[0.92, 0.92])],
+    storakers=[dict(mu=[4.5 * (1.85 / 2), -4.5 * (-9.2 / 2)], alpha=[1.85, -9.2], beta=[0.92, 0.92]), dict(mu=[0.8, 0.3], alpha=[2.5, -3.0], beta=[0.2, 0.6])],
     lopez_pamies=[dict(mu=[1.0, 0.1], alpha=[1.0, -2.0])],
     alexander=[dict(C1=17.0, C2=19.85, C3=1.0, gamma=0.735, k=0.00015)],
     anssari_benam_bucchi=[dict(mu=1.0, N=10.0)],
     miehe_goektepe_lulei=[dict(mu=0.1475, N=3.273, p=9.31, U=9.94, q=0.567)],
     saint_venant_kirchhoff=[dict(mu=1.0, lmbda=2.0), dict(mu=1.0, lmbda=2.0, k=0)],
-    saint_venant_kirchhoff_orthotropic=[dict(mu=[1.0, 1.2, 1.4], lmbda=[2.0, 0.5, 0.6, 2.5, 0.7, 3.0], r1=[1.0, 0.0, 0.0], r2=[0.0, 1.0, 0.0])],
+    saint_venant_kirchhoff_orthotropic=[dict(mu=[1.0, 1.2, 1.4], lmbda=[2.0, 0.5, 0.6, 2.5, 0.7, 3.0], r1=[1.0, 0.0, 0.0], r2=[0.0, 1.0, 0.0]),
+                                        dict(mu=[1.0, 1.2, 1.4], lmbda=[2.0, 0.5, 0.6, 2.5, 0.7, 3.0], r1=[0.6, 0.8, 0.0], r2=[-0.8, 0.6, 0.0], k=1)],
 )
 EIGEN = {"ogden", "storakers", "lopez_pamies", "extended_tube", "miehe_goektepe_lulei", "alexander_principal"}
 ANISO = {"saint_venant_kirchhoff_orthotropic"}
